@@ -728,6 +728,53 @@ func main() {
 		b.WriteString("\n]\n\n")
 	}
 
+	// assignments to fields of the net/http request and response objects the proxy passes on
+	b.WriteString("/-- (function, type, field) for every assignment to a field of a `net/http` Request, Response or `net/url` URL value in\n    internal/server: everything the proxy itself changes on the messages it forwards -/\n")
+	b.WriteString("def messageWrites : List (String × String × String) := [\n")
+	{
+		mrows := []string{}
+		seenM := map[string]bool{}
+		for _, n := range names {
+			ast.Inspect(funcs[n].Body, func(x ast.Node) bool {
+				as, ok := x.(*ast.AssignStmt)
+				if !ok {
+					return true
+				}
+				for _, lhs := range as.Lhs {
+					sel, ok := lhs.(*ast.SelectorExpr)
+					if !ok {
+						continue
+					}
+					tv, ok := srv.TypesInfo.Types[sel.X]
+					if !ok {
+						continue
+					}
+					t := tv.Type
+					if pt, ok := t.(*types.Pointer); ok {
+						t = pt.Elem()
+					}
+					nt, ok := t.(*types.Named)
+					if !ok || nt.Obj().Pkg() == nil {
+						continue
+					}
+					full := nt.Obj().Pkg().Path() + "." + nt.Obj().Name()
+					switch full {
+					case "net/http.Request", "net/http.Response", "net/url.URL":
+						row := fmt.Sprintf("  (%s, %s, %s)", leanStr(n), leanStr(full), leanStr(sel.Sel.Name))
+						if !seenM[row] {
+							seenM[row] = true
+							mrows = append(mrows, row)
+						}
+					}
+				}
+				return true
+			})
+		}
+		sort.Strings(mrows)
+		b.WriteString(strings.Join(mrows, ",\n"))
+		b.WriteString("\n]\n\n")
+	}
+
 	// blocking operations with the locks that may be held
 	b.WriteString("/-- (function, kind, lock acquired or \"\", locks that may be held) for every potentially blocking operation:\n    lock acquisition, channel send/receive outside select, select without default, Wait/Sleep calls -/\n")
 	b.WriteString("def blocking : List (String × String × String × List String) := [\n")
